@@ -205,6 +205,16 @@ public:
      * \sa Stream::enable_recovery_mode
      */
     void follow_partial_streams(bool value);
+#ifdef TINS_VERIF_HOOKS
+    /**
+     * Verification hook (guard TINS_VERIF_HOOKS): the buffering limits have no public
+     * setter; conformance checks run the follower with the small limits of the model.
+     */
+    void verif_set_limits(size_t max_chunks, uint32_t max_bytes) {
+        max_buffered_chunks_ = max_chunks;
+        max_buffered_bytes_ = max_bytes;
+    }
+#endif // TINS_VERIF_HOOKS
 private:
     typedef Stream::timestamp_type timestamp_type;
 
